@@ -319,7 +319,7 @@ def _worker(args):
     for idx in range(lo, hi):
         models = graph_of_index(idx)
         r, _, _ = real_queries(models, pairs)
-        out.append("|".join(r))
+        out.append("\x1f".join(r))          # hop texts contain "|"
     return lo, out
 
 
@@ -480,7 +480,7 @@ def exhaustive_4(c, exe):
     pairs = [(x, y) for x in "abcd" for y in "abcd" if x != y]
     bad_oracle, bad_model = [], []
     for idx in range(N):
-        r = impl[idx].split("|")
+        r = impl[idx].split("\x1f")
         pr = oracle_check(graph_of_index(idx), pairs, r)
         if pr:
             bad_oracle.append((idx, pr[0]))
@@ -493,7 +493,7 @@ def exhaustive_4(c, exe):
                 lines += graph_lines(graph_of_index(idx)) + ["Q %s %s" % p for p in pairs]
             got = lib.run_driver(exe, lines)
             for j, idx in enumerate(range(lo, min(lo + 20000, N))):
-                if "|".join(got[j * 12:(j + 1) * 12]) != impl[idx]:
+                if "\x1f".join(got[j * 12:(j + 1) * 12]) != impl[idx]:
                     bad_model.append(idx)
         c.obligation("correspondence_exhaustive: model == implementation on all 7^6 labelled 4-model graphs x 12 ordered pairs", not bad_model, "correspondence", "first differing graph indices: %r" % bad_model[:5])
     c.obligation("oracle_exhaustive: chain / minimal / symmetric on all 7^6 x 12 implementation answers", not bad_oracle, "correspondence", repr(bad_oracle[:3]))
